@@ -13,7 +13,13 @@ pub const NAMES: &[&str] = &["a", "b", "c", "x1", "_u", "$d", "π", "ä", "名",
 pub fn gen_dup(src: &mut Src, cfg: &GenCfg, avail: &mut Vec<&'static str>, depth: u32) -> Node {
     let deep = depth >= 4;
     match src.weighted(&[4, if deep { 0 } else { 5 }, if deep { 0 } else { 4 }, 4, 3, if deep { 0 } else { 2 }, if deep { 0 } else { 2 }, 1]) {
-        0 => Node::Lit(gen_char(src, cfg)),
+        // leaves: mostly literals; sometimes a never-matching class (dead branches next to groups), a dot, an empty
+        0 => match src.weighted(&[8, 1, 1, 1]) {
+            0 => Node::Lit(gen_char(src, cfg)),
+            1 => Node::Class { neg: false, items: vec![] },
+            2 => Node::Dot,
+            _ => Node::Empty,
+        },
         1 => {
             // alternation: every arm starts from the same availability
             let n = 2 + src.below(3);
